@@ -57,7 +57,7 @@ theorem native_identity_safe (hpos : PosToNat S) (l c : Nat) (a : Value S)
   subst hname
   have hf := misfit1 hm
   obtain ⟨z, rfl, h1, h2, h3⟩ := (Props.C08.C08_domains a).2.2.2.1.mp hf
-  obtain ⟨r, hr, hw, -, -⟩ := Mat.identity_ok (S := S) (hpos z h3 h2 h1)
+  obtain ⟨r, hr, hw, -, -⟩ := Mat.NoPanic.identity_ok (S := S) (hpos z h3 h2 h1)
   simp [nativeBody, numArg, Res.bind, hr, Res.Safe, Value.WF, hw]
 
 theorem native_transpose_safe (l c : Nat) (a : Value S) (ha : a.WF)
@@ -67,7 +67,7 @@ theorem native_transpose_safe (l c : Nat) (a : Value S) (ha : a.WF)
   subst hname
   have hf := misfit1 hm
   obtain ⟨m, rfl⟩ := (Props.C08.C08_domains a).2.2.2.2.1.mp hf
-  obtain ⟨r, hr, hw, -, -⟩ := Mat.transpose_ok ha
+  obtain ⟨r, hr, hw, -, -⟩ := Mat.NoPanic.transpose_ok ha
   simp [nativeBody, matArg, Res.bind, hr, Res.Safe, Value.WF, hw]
 
 theorem native_determinant_safe (l c : Nat) (a : Value S) (ha : a.WF)
@@ -77,7 +77,7 @@ theorem native_determinant_safe (l c : Nat) (a : Value S) (ha : a.WF)
   subst hname
   have hf := misfit1 hm
   obtain ⟨m, rfl, hsq⟩ := (Props.C08.C08_domains a).2.2.2.2.2.mp hf
-  have hr := Mat.det_ok ha hsq
+  have hr := Mat.NoPanic.det_ok ha hsq
   simp [nativeBody, matArg, Res.bind, hr, Res.Safe, Value.WF]
 
 theorem native_inverse_safe (l c : Nat) (a : Value S) (ha : a.WF)
@@ -87,7 +87,7 @@ theorem native_inverse_safe (l c : Nat) (a : Value S) (ha : a.WF)
   subst hname
   have hf := misfit1 hm
   obtain ⟨m, rfl, hsq⟩ := (Props.C08.C08_domains a).2.2.2.2.2.mp hf
-  rcases Mat.inverse_ok ha hsq with hr | ⟨r, hr, hw, -, -⟩
+  rcases Mat.NoPanic.inverse_ok ha hsq with hr | ⟨r, hr, hw, -, -⟩
   · simp [nativeBody, matArg, Res.bind, hr, Res.Safe]
   · simp [nativeBody, matArg, Res.bind, hr, Res.Safe, Value.WF, hw]
 
